@@ -26,7 +26,7 @@ theorem C06_dyn_agrees_any (hS : ScalarRT E) (hD : DynId dyn N) (hc : RTSafeD c 
     (ht : HasType E c x) (n : Nat) (hn : x.depth < n) :
     intoDynF E classes enums n x = intoC E dyn c x := by
   simp only [RTSafeD, Bool.and_eq_true] at hc
-  exact RTSafeD.agree hS hD c hc.1 hc.2 x hx ht n hn
+  exact (RTSafeD.agree hS hD c hc.1 hc.2 x hx ht).2 n hn
 
 /-- **C06, the two serialisers agree**: `into_data(x) = T.into_data(x)` for a typed value `x` of `T`,
 whatever the fuels (above the depth of `x`). -/
